@@ -52,6 +52,8 @@ for _a, _b in FALSY:
 KW_ORDER = [(13, 14), (14, 13), (24, 25), (25, 26), (26, 24)]
 assert all(KWARGS[a] == KWARGS[b] and list(KWARGS[a]) != list(KWARGS[b]) for a, b in KW_ORDER)
 
+# WKT text of the same CRS as pyproj's other writers produce it (the default writer is the "wkt" spelling)
+WKT_FORMATS = ["pretty", "WKT2_2015", "WKT2_2015_SIMPLIFIED", "WKT2_2019_SIMPLIFIED", "WKT1_GDAL"]
 ATOL_A, RTOL_A = 1e-8, 1e-5
 ATOL_S, RTOL_S = 1e-6, 5e-9
 
@@ -105,7 +107,7 @@ class Gen:
             n = fam
             return [{"k": "str", "v": "EPSG:%d" % n}, {"k": "str", "v": "epsg:%d" % n}, {"k": "int", "v": n},
                     {"k": "from_epsg", "v": n}, {"k": "from_epsg_wkt", "v": n}, {"k": "obj", "v": "EPSG:%d" % n},
-                    {"k": "wkt", "v": "EPSG:%d" % n}]
+                    {"k": "wkt", "v": "EPSG:%d" % n}] + [{"k": "wkt_fmt", "v": "EPSG:%d" % n, "fmt": f} for f in WKT_FORMATS]
         parts = fam.split()
         rev = " ".join([parts[0]] + parts[:0:-1])
         d = {}
@@ -121,7 +123,8 @@ class Gen:
         dstr = {k: str(v) for k, v in d.items()}
         return [{"k": "str", "v": fam}, {"k": "str", "v": rev}, {"k": "str", "v": "  ".join(parts) + " "},
                 {"k": "dict", "v": d}, {"k": "dict", "v": dstr},
-                {"k": "obj", "v": fam}, {"k": "wkt", "v": fam}, {"k": "obj_of_obj", "v": fam}]
+                {"k": "obj", "v": fam}, {"k": "wkt", "v": fam}, {"k": "obj_of_obj", "v": fam}] + \
+               [{"k": "wkt_fmt", "v": fam, "fmt": f} for f in WKT_FORMATS]
 
     def crs_other(self, fam):
         if isinstance(fam, int):
@@ -235,7 +238,7 @@ class Gen:
                 i = self.add({"t": "area", "crs": c, "w": sw, "h": sh, "ext": ext}, fam=fam, vals=vals, w=w, h=h,
                              f32=all(n["k"] == "f32" for n in ext["nums"]))
                 variants.append(i)
-                ctx.count("area_spelling_crs_" + c["k"])
+                ctx.count("area_spelling_crs_" + c["k"] + ("_" + c["fmt"] if "fmt" in c else ""))
                 ctx.count("area_spelling_ext_" + style + "_" + ext["cont"])
                 self.pair(base, i, cls="ident", what=what)
             a, b2 = r.sample(variants[1:], 2)
@@ -628,15 +631,27 @@ class Gen:
 
 # ---------------------------------------------------------------------------------------------- property oracle
 def crs_key(obs, i, j):
-    """Attribution of a digest/equality difference between two spellings of one CRS."""
+    """Attribution of a digest/equality difference between two spellings of one CRS.  The known finding is a pyproj/PROJ
+    phenomenon: CRS(a).to_wkt() and CRS(b).to_wkt() (tokens taken from pyproj directly) differ and are related by pyproj's
+    WKT round trip.  Same pyproj tokens but different crs_wkt strings stored by pyresample is pyresample's doing."""
     gi, gj = obs["geos"][i], obs["geos"][j]
     rt = obs["rt"]
-    ti, tj = gi.get("tok_impl"), gj.get("tok_impl")
-    if ti is None or tj is None or ti == tj:
+    ti, tj = gi.get("tok"), gj.get("tok")
+    if ti is None or tj is None:
         return None
+    if ti == tj:
+        return "C12.spelling.crs_token" if gi.get("tok_impl") != gj.get("tok_impl") else None
     if rt[ti] == tj or rt[tj] == ti or rt[ti] == rt[tj]:
         return "C12.spelling.crs_wkt_epsg_vs_object"
     return "C12.spelling.crs"
+
+
+def lossy_wkt(obs, geos, i, j):
+    """Two area specs of one family whose CRS spellings pyproj itself maps to unrelated WKT strings because one of them is
+    WKT text in another dialect (WKT1, WKT2:2015 without datum ensembles): other parameters for pyproj, not another spelling."""
+    if geos[i]["t"] != "area" or geos[j]["t"] != "area":
+        return False
+    return any(geos[x]["crs"].get("k") == "wkt_fmt" for x in (i, j)) and crs_key(obs, i, j) == "C12.spelling.crs"
 
 
 def check_pair(i, j, pm, r, obs, geos, meta):
@@ -659,7 +674,8 @@ def check_pair(i, j, pm, r, obs, geos, meta):
         out.append(("C12.eq.reflexive", "x == x is False"))
     if r["e12"] != r["e21"] and pm["cls"] in ("ident",):
         out.append(("C12.eq.symmetric", "a == b is %s but b == a is %s" % (r["e12"], r["e21"])))
-    if pm["cls"] == "ident":
+    lossy = pm["cls"] == "ident" and lossy_wkt(obs, geos, i, j)
+    if pm["cls"] == "ident" and not lossy:
         bad = [k for k, v in rel.items() if v is not True]
         if bad:
             key = None
@@ -797,6 +813,8 @@ def oracle(g, obs):
             same = [k for k, v in rels.items() if v]
             key = "C12.key.kwargs.falsy" if km["mode"] == "kw_falsy" else "C12.key.kwargs"
             res.append((key, "kwargs %s vs %s give the same cache key through %s" % (KWARGS[k1], KWARGS[k2], ", ".join(same)), "key", idx))
+        if km["mode"] in ("kw_order", "same") and (lossy_wkt(obs, g.geos, s1, s2) or lossy_wkt(obs, g.geos, t1, t2)):
+            continue
         if km["mode"] == "kw_order" and not all(rels.values()):
             key = crs_key(obs, s1, s2) or crs_key(obs, t1, t2) or ("C12.key.kwargs_order" if r["geo"] else "C12.key.spelling")
             res.append((key, "the same kwargs written in another order (%s / %s) give different cache keys (%s)" % (KWARGS[k1], KWARGS[k2], rels), "key", idx))
@@ -826,7 +844,9 @@ def oracle(g, obs):
                     bad.append("not == the area it was taken from %s" % (r["eq_prev"],))
                 if bad:
                     tp = r["tok_prev"]
-                    if rt[tp] != tp or r["tok"] != tp:
+                    if tp not in obs.get("direct_toks", [tp]) and rt[tp] in obs.get("direct_toks", []):
+                        key = "C12.spelling.crs_token"      # crs_wkt held a string that is not pyproj's WKT for the projection
+                    elif rt[tp] != tp or r["tok"] != tp:
                         key = "C12.spelling.crs_wkt_epsg_vs_object"
                     else:
                         key = "C12.fullslice.extent_ulp" if op[0] == "slice" else "C12.copy.digest"
@@ -1100,6 +1120,8 @@ def evaluate(ctx, g, obs, record=False):
             ctx.case(("pair", json.dumps(g.geos[i], sort_keys=True), json.dumps(g.geos[j], sort_keys=True)), nontrivial=i != j,
                      sample=None if pm["cls"] == "cross" else {"pair_%s_%s" % (g.geos[i]["t"], pm["cls"]): pm["what"], "a": g.geos[i], "b": g.geos[j]})
             ctx.count("pair_%s_%s_%s" % (g.geos[i]["t"], pm["cls"], pm["what"].split("_")[0] if pm["cls"] == "ident" else pm["what"]))
+            if pm["cls"] == "ident" and "error" not in obs["geos"][i] and "error" not in obs["geos"][j] and lossy_wkt(obs, g.geos, i, j):
+                ctx.count("pair_area_ident_no_demand_wkt_dialect_not_read_back_by_pyproj")
         for name in ("area_hist", "swath_hist", "stack_hist"):
             for c in getattr(g, name):
                 muts = [op[0] for op in c["ops"] if op[0] not in ("hash", "eq")]
